@@ -332,4 +332,19 @@ theorem step_inv (U : List String) (s s' : S) (a : Act) (h : Inv U s) (ha : ActO
             rw [← hunsol, hinf]; simp [List.filter_cons, hfr]
     · cases hs
 
+theorem run_inv_of_ok (U : List String) : ∀ (as : List Act) (s' : S), (∀ a ∈ as, ActOk U a) →
+    run init as = some s' → Inv U s' := by
+  suffices h : ∀ (as : List Act) (s s' : S), Inv U s → (∀ a ∈ as, ActOk U a) → run s as = some s' → Inv U s' from
+    fun as s' hok hr => h as init s' (inv_init U) hok hr
+  intro as
+  induction as with
+  | nil => intro s s' h _ hr; simp [run] at hr; subst hr; exact h
+  | cons a as ih =>
+    intro s s' h hok hr
+    simp only [run] at hr
+    split at hr
+    · cases hr
+    · rename_i s1 hs1
+      exact ih s1 s' (step_inv U s s1 a h (hok a (by simp)) hs1) (fun b hb => hok b (by simp [hb])) hr
+
 end Amqp.Rpc
